@@ -320,8 +320,13 @@ func (a *Authority) authorizeRenew(ctx context.Context, cert *x509.Certificate) 
 			return nil, errs.Unauthorized("authority.authorizeRenew: provisioner not found", opts...)
 		}
 	}
-	// A provisioner that failed to initialize cannot authorize anything.
-	if _, ok := p.(provisioner.Uninitialized); ok {
+	// A provisioner that failed to initialize cannot authorize anything. The
+	// provisioner loaded from a database record with RA info is wrapped.
+	up := p
+	if wp, ok := p.(*wrappedProvisioner); ok {
+		up = wp.Interface
+	}
+	if _, ok := up.(provisioner.Uninitialized); ok {
 		return nil, errs.Unauthorized("authority.authorizeRenew: provisioner %q is disabled due to an initialization error", p.GetName())
 	}
 	if err := p.AuthorizeRenew(ctx, cert); err != nil {
